@@ -3132,6 +3132,17 @@ func (db *DB) TryAcquireWriteLock() (ret *GuardSet) {
 		return gs
 	}
 
+	// Connections of a WAL database keep SHARED for as long as they are open so
+	// that lock cannot be taken exclusively. Take PENDING instead: it keeps new
+	// connections from getting SHARED while the database file is rewritten. A
+	// connection that opens while a transaction that takes the database out of
+	// WAL mode is being applied would otherwise find a rollback-mode header on
+	// page 1 and read the half-written file under SHARED alone. Connections
+	// that are already open need one of the WAL locks below to read.
+	if !gs.pending.TryLock() {
+		blockedBy = "lock(PENDING)"
+		return nil
+	}
 	if !gs.dms.TryRLock() {
 		blockedBy = "rlock(DMS)"
 		return nil
